@@ -80,10 +80,12 @@ def unlight(d):
     return d['cfg'], ops
 
 
-def rerun(cfg, ops):
-    """Re-execute ops on a fresh implementation (annotations recomputed)."""
+def rerun(cfg, ops, chunker=None):
+    """Re-execute ops on a fresh implementation (annotations recomputed).
+    chunker: bytes -> list of chunks; every Receive is then fed to receive_data piece by piece (C21)."""
     from harness.impl_driver import Impl, thash
     impl = Impl(cfg)
+    impl.chunker = chunker
     out_ops, parts_all, cleared = [], [], []
     for op in ops:
         if op[0] == 'Receive':
